@@ -9,7 +9,11 @@ package vrt
 // unforgeability as the stated contract).
 
 import (
+	"crypto/ecdsa"
 	"crypto/sha256"
+
+	"github.com/btcsuite/btcd/btcec/v2"
+	ethcrypto "github.com/ethereum/go-ethereum/crypto"
 
 	goatcrypto "github.com/goatnetwork/goat/pkg/crypto"
 	blst "github.com/supranational/blst/bindings/go"
@@ -41,4 +45,36 @@ func (h *H) AggSig(mask []bool, msg []byte) []byte {
 		h.tb.Fatalf("vrt: aggregate: %v", err)
 	}
 	return agg
+}
+
+// BLSSig returns signer i's individual BLS signature over msg (proof of possession style).
+func (h *H) BLSSig(i int, msg []byte) []byte { return goatcrypto.Sign(blsSecret(i), msg) }
+
+func ecdsaKey(i int) *ecdsa.PrivateKey {
+	seed := sha256.Sum256([]byte{'v', 'r', 't', 'e', byte(i), byte(i >> 8)})
+	k, err := ethcrypto.ToECDSA(seed[:])
+	if err != nil {
+		panic(err)
+	}
+	return k
+}
+
+// TxKey returns the compressed secp256k1 public key (33 bytes) of harness signer i.
+func (h *H) TxKey(i int) []byte { return ethcrypto.CompressPubkey(&ecdsaKey(i).PublicKey) }
+
+// TxSig returns signer i's 64-byte [R||S] ECDSA signature over the 32-byte digest.
+func (h *H) TxSig(i int, digest []byte) []byte {
+	if len(digest) != 32 {
+		return make([]byte, 64)
+	}
+	sig, err := ethcrypto.Sign(digest, ecdsaKey(i))
+	if err != nil {
+		h.tb.Fatalf("vrt: ecdsa sign: %v", err)
+	}
+	return sig[:64]
+}
+
+func ecdsaBtcec(i int) (*btcec.PrivateKey, *btcec.PublicKey) {
+	seed := sha256.Sum256([]byte{'v', 'r', 't', 'e', byte(i), byte(i >> 8)})
+	return btcec.PrivKeyFromBytes(seed[:])
 }
